@@ -131,6 +131,32 @@ def bool_codec_replay(which):
     return None
 
 
+def bool_sequence_replay():
+    """Native witness search for _encode_bool_sequence: n = 0..17 bools with alternating / boundary patterns on the spec AVM against ARC-4 packing."""
+    from vf.core import use_repo
+    use_repo()
+    import pyteal as pt
+    from pyteal.ast.abi.bool import _encode_bool_sequence
+    from spec import avm
+    for n in range(0, 18):
+        for pat in ({n - 1}, set(range(n)), set(range(0, n, 2)), {0}, {8}, {9}):
+            bits = [j in pat for j in range(n)]
+            vals = [pt.abi.Bool() for _ in range(n)]
+            want = bytearray((n + 7) // 8)
+            for j, b in enumerate(bits):
+                if b:
+                    want[j // 8] |= 0x80 >> (j % 8)
+            try:
+                teal = pt.compileTeal(pt.Seq(*[v.set(b) for v, b in zip(vals, bits)], pt.Log(_encode_bool_sequence(vals)), pt.Approve()), pt.Mode.Application, version=6)
+                r = avm.run(teal, avm.Ctx())
+                got = (r.verdict, [bytes(x).hex() for x in r.logs])
+            except Exception as e:  # noqa
+                teal, got = None, ("exception", repr(e))
+            if got != ("approve", [bytes(want).hex()]):
+                return {"input": {"bools": bits}, "problems": [f"_encode_bool_sequence of {bits} gives {got}, expected {bytes(want).hex()}"], "teal": teal}
+    return None
+
+
 def run(report: Report, tier, seed):
     report.trust("algosdk.abi (reference codec: type strings, is_dynamic, byte_len, encode)", "spec/avm.py",
                  "spec arc4 position function in contracts/c06_layout.py (independent, element-by-element walk)")
@@ -143,7 +169,8 @@ def run(report: Report, tier, seed):
                            ("contracts.c06_uint", "UintSetInt", "O6.17"),
                            ("contracts.c06_uint", "UintSetExpr", "O6.18"),
                            ("contracts.c06_uint", "UintEncode", "O6.19"),
-                           ("contracts.c06_uint", "BoolEncode", "O6.20")])
+                           ("contracts.c06_uint", "BoolEncode", "O6.20"),
+                           ("contracts.c06_uint", "EncodeBoolSequence", "O6.21")])
     jobs = jobs_for(tier, seed)
     res = A.pool_map(A.encode_case, jobs)
     bad = [r for r in res if r["problems"]]
@@ -181,6 +208,8 @@ def run(report: Report, tier, seed):
     report.sample({"shape": jobs[40][0], "what": "assembled with set() from parts, Log(encode()) compared with algosdk"})
     report.extra["explanation"] = "P: layout arithmetic (pyvc); B: Expr layer against algosdk on generated shapes/values"
     def search(fn, obs):
+        if fn.endswith("_encode_bool_sequence"):
+            return bool_sequence_replay()
         if fn.endswith("Bool.encode"):
             return bool_codec_replay("encode")
         if fn.endswith("uint.uint_encode"):
